@@ -64,13 +64,18 @@ def compare (a b : UInt64) : Int :=
 end Float64
 
 /-! `datamodel.DeepEqual`: same kind, scalars by Go `==`, lists and maps element-wise in iteration
-order (maps are order-sensitive). Integers beyond int64 make `AsInt` fail and DeepEqual panic; that
-outcome is modelled in `Policy.lean` (the caller checks `fitsInt64` first). -/
+order (maps are order-sensitive). Integers beyond int64 make `AsInt` fail and DeepEqual panic; the
+caller (`deepEqual` in match.go) recovers and answers "not equal": a pair of integers of which one
+does not fit int64 is therefore unequal, even when both are the same number. -/
+def minInt64 : Int := -9223372036854775808
+def maxInt64 : Int := 9223372036854775807
+def intFits64 (i : Int) : Bool := minInt64 ≤ i && i ≤ maxInt64
+
 mutual
 def Node.deepEq : Node → Node → Bool
   | .null, .null => true
   | .bool a, .bool b => a == b
-  | .int a, .int b => a == b
+  | .int a, .int b => intFits64 a && intFits64 b && a == b
   | .float a, .float b => Float64.eq a b
   | .str a, .str b => a == b
   | .bytes a, .bytes b => a == b
@@ -88,13 +93,10 @@ def Node.deepEqMap : List (Bytes × Node) → List (Bytes × Node) → Bool
   | _, _ => false
 end
 
-def minInt64 : Int := -9223372036854775808
-def maxInt64 : Int := 9223372036854775807
-
 mutual
 /-- every integer in the tree is representable as int64 (no `plainUint` above MaxInt64) -/
 def Node.fitsInt64 : Node → Bool
-  | .int i => minInt64 ≤ i && i ≤ maxInt64
+  | .int i => intFits64 i
   | .list xs => Node.fitsInt64List xs
   | .map kvs => Node.fitsInt64Map kvs
   | _ => true
